@@ -347,3 +347,262 @@ Proof.
          rewrite D in Pr; eexists _, _, _; (split; [exact Pr|]); (split; [apply Hh, hget_allocst|]);
          (eapply sext_trans; [exact X02 | apply sext_allocst; eapply sext_good; eauto]).
 Qed.
+
+(* ====================================================================== *)
+(* 5. Statements                                                           *)
+(* ====================================================================== *)
+Inductive srel : C.stmt -> stmt -> Prop :=
+| s_decl n t e x : xrel e x -> srel (C.SDecl n e) (SDecl n t x)
+| s_assign n t e x : xrel e x -> srel (C.SAssign (C.EVar n) e) (SAssign (EVar n t) x)
+| s_empty : srel C.SEmpty SNop
+| s_break : srel C.SBreak SBreak
+| s_if c b elifs els xc xb xelifs xels :
+    xrel c xc -> lrel b xb -> crel elifs xelifs -> orel els xels ->
+    srel (C.SIf c b elifs els) (SIf ((xc, xb) :: xelifs) xels)
+| s_while c b xc xb : xrel c xc -> lrel b xb -> srel (C.SWhile c b) (SWhile xc xb)
+with lrel : C.slist -> list stmt -> Prop :=
+| l_nil : lrel C.SNil []
+| l_cons s t x xt : srel s x -> lrel t xt -> lrel (C.SCons s t) (x :: xt)
+with crel : C.clist -> list (expr * list stmt) -> Prop :=
+| c_nil : crel C.CNil []
+| c_cons c b t xc xb xt : xrel c xc -> lrel b xb -> crel t xt -> crel (C.CCons c b t) ((xc, xb) :: xt)
+with orel : C.oslist -> option (list stmt) -> Prop :=
+| o_none : orel C.NoElse None
+| o_some b xb : lrel b xb -> orel (C.Else b) (Some xb).
+
+(* the statement fragment of the tie *)
+Fixpoint tfrag_s (s : C.stmt) : bool :=
+  match s with
+  | C.SDecl n e => name_ok n && tfrag_e e
+  | C.SAssign (C.EVar n) e => name_ok n && tfrag_e e
+  | C.SEmpty | C.SBreak => true
+  | C.SIf c b elifs els =>
+      tfrag_e c && tfrag_l b && tfrag_c elifs && match els with C.NoElse => true | C.Else eb => tfrag_l eb end
+  | C.SWhile c b => tfrag_e c && tfrag_l b
+  | _ => false
+  end
+with tfrag_l (l : C.slist) : bool :=
+  match l with C.SNil => true | C.SCons s t => tfrag_s s && tfrag_l t end
+with tfrag_c (l : C.clist) : bool :=
+  match l with C.CNil => true | C.CCons c b t => tfrag_e c && tfrag_l b && tfrag_c t end.
+
+(* fuel monotonicity of the statement-level functions, for successful runs *)
+Lemma stmt_mono P n m E x s r s' : (n <= m)%nat ->
+  exec_stmt n P E x s = (Ok r, s') -> exec_stmt m P E x s = (Ok r, s').
+Proof. intros L H. eapply (proj1 (proj2 (proj2 (proj2 (fuel_mono n m L))))); [exact H | discriminate]. Qed.
+Lemma stmts_mono P n m E x s r s' : (n <= m)%nat ->
+  exec_stmts n P E x s = (Ok r, s') -> exec_stmts m P E x s = (Ok r, s').
+Proof. intros L H. eapply (proj1 (proj2 (proj2 (proj2 (proj2 (fuel_mono n m L)))))); [exact H | discriminate]. Qed.
+Lemma block_mono P n m E x s r s' : (n <= m)%nat ->
+  exec_block n P E x s = (Ok r, s') -> exec_block m P E x s = (Ok r, s').
+Proof. intros L H. eapply (proj1 (proj2 (proj2 (proj2 (proj2 (proj2 (fuel_mono n m L))))))); [exact H | discriminate]. Qed.
+Lemma while_mono P n m E c b s r s' : (n <= m)%nat ->
+  exec_while n P E c b s = (Ok r, s') -> exec_while m P E c b s = (Ok r, s').
+Proof.
+  intros L H. eapply (proj1 (proj2 (proj2 (proj2 (proj2 (proj2 (proj2 (proj2 (fuel_mono n m L))))))))); [exact H | discriminate].
+Qed.
+
+(* ---------- frames ---------- *)
+Lemma alook_cons n m v lf : CS.alook m ((n, v) :: lf) = if str_eqb n m then Some v else CS.alook m lf.
+Proof. reflexivity. Qed.
+
+Lemma frel_in_decl h n v c lf sf :
+  frel_in h lf sf -> holds h c v -> frel_in h ((n, v) :: lf) (frame_set n c sf).
+Proof.
+  intros F H m. rewrite alook_cons. destruct (str_eqb n m) eqn:Q.
+  - apply str_eqb_eq in Q; subst m. rewrite frame_get_set_same. eauto.
+  - apply str_eqb_neq in Q. rewrite frame_get_set_other by congruence. apply F.
+Qed.
+Lemma frel_gl_decl h n v c gf g :
+  frel_gl h gf g -> holds h c v -> frel_gl h ((n, v) :: gf) (frame_set n c g).
+Proof.
+  intros F H m w. rewrite alook_cons. destruct (str_eqb n m) eqn:Q.
+  - apply str_eqb_eq in Q; subst m. intro A; inversion A; subst w. rewrite frame_get_set_same. eauto.
+  - apply str_eqb_neq in Q. rewrite frame_get_set_other by congruence. apply F.
+Qed.
+Lemma frel_in_assign h n v c lf sf x :
+  frel_in h lf sf -> holds h c v -> frame_get n sf = Some x ->
+  frel_in h ((n, v) :: lf) (frame_replace n c sf).
+Proof.
+  intros F H G m. rewrite alook_cons. destruct (str_eqb n m) eqn:Q.
+  - apply str_eqb_eq in Q; subst m. rewrite (frame_get_replace_same _ _ _ _ G). eauto.
+  - apply str_eqb_neq in Q. rewrite frame_get_replace_other by congruence. apply F.
+Qed.
+Lemma frel_gl_assign h n v c gf g x :
+  frel_gl h gf g -> holds h c v -> frame_get n g = Some x ->
+  frel_gl h ((n, v) :: gf) (frame_replace n c g).
+Proof.
+  intros F H G m w. rewrite alook_cons. destruct (str_eqb n m) eqn:Q.
+  - apply str_eqb_eq in Q; subst m. intro A; inversion A; subst w.
+    rewrite (frame_get_replace_same _ _ _ _ G). eauto.
+  - apply str_eqb_neq in Q. rewrite frame_get_replace_other by congruence. apply F.
+Qed.
+
+(* x := e *)
+Lemma decl_tie lenv E s n v c :
+  envrel lenv E s -> name_ok n = true -> holds (st_heap s) c v ->
+  exists E' s', set_var n c E s = (Ok E', s') /\ envrel (CS.sdecl n v lenv) E' s' /\
+                st_heap s' = st_heap s /\ List.length E' = List.length E /\
+                (forall t, t = s' -> st_trace t = st_trace s /\ st_stopped t = st_stopped s /\
+                                     st_stop_at t = st_stop_at s /\ st_total t = st_total s /\ st_fails t = st_fails s).
+Proof.
+  intros (lfs & gf & -> & F & FG) N H. unfold set_var. unfold name_ok in N.
+  apply negb_true_iff in N. rewrite N.
+  inversion F as [|lf sf lt st Hf F']; subst.
+  - eexists [], _. split; [reflexivity|]. split.
+    + exists [], ((n, v) :: gf). split; [reflexivity|]. split; [constructor|].
+      simpl. apply frel_gl_decl; auto.
+    + simpl. repeat split; intros; subst; reflexivity.
+  - eexists _, s. split; [reflexivity|]. split.
+    + exists (((n, v) :: lf) :: lt), gf. split; [reflexivity|]. split; [|exact FG].
+      constructor; auto. apply frel_in_decl; auto.
+    + simpl. repeat split; intros; subst; reflexivity.
+Qed.
+
+(* x = e *)
+Lemma assign_tie lenv E s n v c lenv' :
+  envrel lenv E s -> name_ok n = true -> holds (st_heap s) c v -> CS.sassign n v lenv = Some lenv' ->
+  exists E' s', update_var n c E s = (Ok E', s') /\ envrel lenv' E' s' /\
+                st_heap s' = st_heap s /\ List.length E' = List.length E /\
+                (forall t, t = s' -> st_trace t = st_trace s /\ st_stopped t = st_stopped s /\
+                                     st_stop_at t = st_stop_at s /\ st_total t = st_total s /\ st_fails t = st_fails s).
+Proof.
+  intros (lfs & gf & -> & F & FG) N H A. unfold update_var. unfold name_ok in N.
+  apply negb_true_iff in N. rewrite N.
+  revert lenv' A. induction F as [|lf sf lt st Hf F IH]; intros lenv' A; simpl in A |- *.
+  - destruct (CS.alook n gf) as [w|] eqn:Q; [|discriminate]. inversion A; subst lenv'.
+    destruct (FG n w Q) as (l0 & G0 & _). rewrite G0.
+    eexists [], _. split; [reflexivity|]. split.
+    + exists [], ((n, v) :: gf). split; [reflexivity|]. split; [constructor|].
+      simpl. eapply frel_gl_assign; eauto.
+    + simpl. repeat split; intros; subst; reflexivity.
+  - pose proof (Hf n) as Hn. destruct (frame_get n sf) as [l0|] eqn:G0.
+    + destruct Hn as (w & Q & _). rewrite Q in A. inversion A; subst lenv'.
+      eexists _, s. split; [reflexivity|]. split.
+      * exists (((n, v) :: lf) :: lt), gf. split; [reflexivity|]. split; [|exact FG].
+        constructor; auto. eapply frel_in_assign; eauto.
+      * simpl. repeat split; intros; subst; reflexivity.
+    + rewrite Hn in A. destruct (CS.sassign n v (lt ++ [gf])) as [r|] eqn:Q; [|discriminate].
+      inversion A; subst lenv'. destruct (IH _ eq_refl) as (E' & s' & U & R' & Hh & Hlen & Hrest).
+      destruct (env_update n c st) as [st'|] eqn:U'.
+      * inversion U; subst. eexists _, _. split; [reflexivity|]. split.
+        -- destruct R' as (lfs' & gf' & Eq & F' & FG'). exists (lf :: lfs'), gf'.
+           split; [simpl; rewrite Eq; reflexivity|]. split; [constructor; auto | exact FG'].
+        -- simpl. simpl in Hlen. repeat split; intros; subst; try reflexivity. f_equal; exact Hlen.
+      * destruct (frame_get n (st_globals s)); inversion U; subst.
+        eexists _, _. split; [reflexivity|]. split.
+        -- destruct R' as (lfs' & gf' & Eq & F' & FG'). exists (lf :: lfs'), gf'.
+           split; [simpl; rewrite Eq; reflexivity|]. split; [|exact FG'].
+           constructor; auto.
+        -- simpl. simpl in Hlen. split; [reflexivity|]. split; [f_equal; exact Hlen|]. intros; subst; repeat split.
+Qed.
+
+(* ---------- what a statement may do to the state ---------- *)
+Definition gext (s s' : state) : Prop :=
+  heap_extends (st_heap s) (st_heap s') /\ good s' /\
+  st_trace s' = st_trace s /\ st_total s' = st_total s /\ st_fails s' = st_fails s.
+Lemma gext_refl s : good s -> gext s s.
+Proof. intro G. split; [apply heap_extends_refl|]. split; [exact G|]. auto. Qed.
+Lemma gext_trans a b c : gext a b -> gext b c -> gext a c.
+Proof.
+  intros (A1 & A2 & A3 & A4 & A5) (B1 & B2 & B3 & B4 & B5).
+  split; [eapply heap_extends_trans; eauto|]. split; [exact B2|]. repeat split; congruence.
+Qed.
+Lemma sext_gext s s' : sext s s' -> gext s s'.
+Proof. intros (A1 & A2 & A3 & A4 & A5 & A6). split; [exact A1|]. split; [exact A2|]. auto. Qed.
+Lemma gext_good s s' : gext s s' -> good s'.
+Proof. intros (_ & G & _). exact G. Qed.
+Lemma gext_same_heap s s' : good s -> st_heap s' = st_heap s ->
+  (st_trace s' = st_trace s /\ st_stopped s' = st_stopped s /\ st_stop_at s' = st_stop_at s /\
+   st_total s' = st_total s /\ st_fails s' = st_fails s) -> gext s s'.
+Proof.
+  intros [W [T1 T2]] Hh (A & B & C0 & D & F). split; [rewrite Hh; apply heap_extends_refl|].
+  split; [|auto]. split; [unfold wf; rewrite Hh; exact W | split; congruence].
+Qed.
+
+Definition sigbr (sig : signal) (br : bool) : Prop :=
+  match sig, br with SigNone, false => True | SigBreak, true => True | _, _ => False end.
+
+Lemma envrel_push lenv E s : envrel lenv E s -> envrel ([] :: lenv) ([] :: E) s.
+Proof.
+  intros (lfs & gf & -> & F & FG). exists ([] :: lfs), gf. split; [reflexivity|]. split; [|exact FG].
+  constructor; auto. intro n. reflexivity.
+Qed.
+Lemma envrel_pop lenv E s : envrel lenv E s -> E <> [] -> envrel (tl lenv) (tl E) s.
+Proof.
+  intros (lfs & gf & -> & F & FG) N. inversion F; subst; [congruence|].
+  exists l, gf. auto.
+Qed.
+Lemma envrel_gext lenv E s s' :
+  heap_extends (st_heap s) (st_heap s') -> frel_gl (st_heap s') (last lenv []) (st_globals s') ->
+  envrel lenv E s -> envrel lenv E s'.
+Proof.
+  intros X FG (lfs & gf & -> & F & _). exists lfs, gf. split; auto. split.
+  - eapply Forall2_impl; [|exact F]. intros; eapply frel_in_ext; eauto.
+  - rewrite last_last in FG. exact FG.
+Qed.
+
+Section Stmts.
+  Variable P : program.
+
+  (* the statement list part of the induction, at a given fuel of lx *)
+  Definition list_tie (f : nat) : Prop :=
+    forall l xl lenv E s lenv' br,
+      CS.lx_l f l lenv = Some (lenv', br) -> lrel l xl -> tfrag_l l = true -> envrel lenv E s -> good s ->
+      exists N sig E' s', exec_stmts N P E xl s = (Ok (sig, E'), s') /\ sigbr sig br /\
+                          envrel lenv' E' s' /\ gext s s' /\ List.length E' = List.length E.
+
+  (* a block: push, run, pop *)
+  Lemma block_tie f b xb lenv E s lenv1 br :
+    list_tie f -> CS.leave (CS.lx_l f b ([] :: lenv)) = Some (lenv1, br) ->
+    lrel b xb -> tfrag_l b = true -> envrel lenv E s -> good s ->
+    exists N sig E2 s', exec_block N P ([] :: E) xb s = (Ok (sig, E2), s') /\ sigbr sig br /\
+                        envrel lenv1 (tl E2) s' /\ gext s s' /\ List.length (tl E2) = List.length E.
+  Proof.
+    intros HL Hl Rb Fb R G. unfold CS.leave in Hl.
+    destruct (CS.lx_l f b ([] :: lenv)) as [[lenv2 br2]|] eqn:Q; [|discriminate]. inversion Hl; subst.
+    pose proof (envrel_sext _ _ _ _ (sext_tickst s G) (envrel_push _ _ _ R)) as R1.
+    destruct (HL _ _ _ _ _ _ _ Q Rb Fb R1 (good_tickst s G)) as (N & sig & E2 & s' & Hx & Hs & R2 & X & Hlen).
+    exists (S N), sig, E2, s'. split; [cbn [exec_block]; rewrite (run_tick _ s G); exact Hx|].
+    split; [exact Hs|]. simpl in Hlen.
+    split; [apply envrel_pop; auto; destruct E2; [discriminate | congruence]|].
+    split; [eapply gext_trans; [apply sext_gext, sext_tickst; auto | exact X]|].
+    destruct E2; simpl in *; [discriminate | lia].
+  Qed.
+
+  (* a condition with its block *)
+  Lemma cond_true_tie f c b xc xb lenv E s lenv1 br :
+    list_tie f -> C.eval_expr (fun n => CS.slook n lenv) c = Some (Vm.VBool true) ->
+    CS.leave (CS.lx_l f b ([] :: lenv)) = Some (lenv1, br) ->
+    xrel c xc -> lrel b xb -> tfrag_e c = true -> tfrag_l b = true -> envrel lenv E s -> good s ->
+    exists N sig E1 s', exec_cond N P E xc xb s = (Ok (Some sig, E1), s') /\ sigbr sig br /\
+                        envrel lenv1 E1 s' /\ gext s s' /\ List.length E1 = List.length E.
+  Proof.
+    intros HL Ec Hl Rc Rb Fc Fb R G.
+    destruct (tie_expr P c xc Rc ([] :: lenv) ([] :: E) s _ Fc Ec (envrel_push _ _ _ R) G)
+      as (N1 & l & s1 & Hx & Hh & X1).
+    inversion Hh; subst.
+    destruct (block_tie f b xb lenv E s1 lenv1 br HL Hl Rb Fb (envrel_sext _ _ _ _ X1 R) (sext_good _ _ X1))
+      as (N2 & sig & E2 & s' & Hb & Hs & R2 & X2 & Hlen).
+    exists (S (Nat.max N1 N2)), sig, (tl E2), s'.
+    split.
+    - cbn [exec_cond]. rewrite (run_ok _ _ _ _ _ (expr_mono P N1 _ _ _ _ _ _ (Nat.le_max_l N1 N2) Hx)).
+      rewrite (run_load _ s1 l _ H1). rewrite (run_ok _ _ _ _ _ (block_mono P N2 _ _ _ _ _ _ (Nat.le_max_r N1 N2) Hb)).
+      reflexivity.
+    - split; [exact Hs|]. split; [exact R2|]. split; [|exact Hlen].
+      eapply gext_trans; [apply sext_gext; exact X1 | exact X2].
+  Qed.
+
+  Lemma cond_false_tie c xc xb lenv E s :
+    C.eval_expr (fun n => CS.slook n lenv) c = Some (Vm.VBool false) ->
+    xrel c xc -> tfrag_e c = true -> envrel lenv E s -> good s ->
+    exists N s', exec_cond N P E xc xb s = (Ok (None, E), s') /\ envrel lenv E s' /\ gext s s'.
+  Proof.
+    intros Ec Rc Fc R G.
+    destruct (tie_expr P c xc Rc ([] :: lenv) ([] :: E) s _ Fc Ec (envrel_push _ _ _ R) G)
+      as (N1 & l & s1 & Hx & Hh & X1).
+    inversion Hh; subst. exists (S N1), s1. split.
+    - cbn [exec_cond]. rewrite (run_ok _ _ _ _ _ Hx), (run_load _ s1 l _ H1). reflexivity.
+    - split; [eapply envrel_sext; eauto | apply sext_gext; exact X1].
+  Qed.
+End Stmts.
